@@ -30,6 +30,11 @@
 // (d)/(e) the same with a launcher process that lingers 50 / 300 ms between daemon.Run()
 // returning true and os.Exit(0): a program with a slow clean-up in the documented
 // "if daemon.Run() { os.Exit(0) }" - a launcher that is still alive after it stopped listening.
+// (h) histories: one caller process issues 6..12 Launch calls one after the other (seq) or in
+// steps of 1-3 concurrent calls (mix), with GOMAXPROCS default or 1; 45 % of the handlers fail
+// before Done() (os.Exit(3), os.Exit(0), panic), every history starts with "a failing launch,
+// then a healthy one". Each healthy call is judged by the same oracle (its own handler index
+// in marker/predone); calls of failing handlers are outside the statement and only counted.
 package main
 
 import (
@@ -59,7 +64,16 @@ type Group struct {
 	// returning true and os.Exit(0) - the documented "if daemon.Run() { os.Exit(0) }" with a
 	// slow clean-up in between.
 	LingerMs int `json:"launcher_linger_ms,omitempty"`
+	// Histories: Kinds[i] says what handler dl-<i> does ("h"/"" healthy; "x3" os.Exit(3), "x0"
+	// os.Exit(0), "p" panic - each before Done()); Steps splits the calls of this caller into
+	// consecutive steps of that many concurrent Launch calls (a step of 1 is issued by the
+	// caller's main goroutine); Procs is the caller's GOMAXPROCS (0 = default).
+	Kinds []string `json:"kinds,omitempty"`
+	Steps []int    `json:"steps,omitempty"`
+	Procs int      `json:"gomaxprocs,omitempty"`
 }
+
+func (g Group) kind(i int) string { return kindOf(g.Kinds, i) }
 
 // Case is one replayable scenario: the groups run at the same time.
 type Case struct {
@@ -72,7 +86,7 @@ func (cs Case) shape() string {
 	var sb strings.Builder
 	sb.WriteString(cs.Sched)
 	for _, g := range cs.Groups {
-		fmt.Fprintf(&sb, "|f=%v:%v:l%d", g.Forced, g.Delays, g.LingerMs)
+		fmt.Fprintf(&sb, "|f=%v:%v:l%d:k%v:s%v:p%d", g.Forced, g.Delays, g.LingerMs, g.Kinds, g.Steps, g.Procs)
 	}
 	return sb.String()
 }
@@ -162,6 +176,15 @@ func runCase(cs Case, c *drv.Ctx, root string) (vd verdict) {
 		cmd := exec.Command(self)
 		cmd.Env = append(cleanEnv(), envRole+"=caller", envDir+"="+gr.dir, envSeq+"="+cs.Id,
 			envDelays+"="+joinInts(gr.g.Delays), envSup+"="+strconv.Itoa(os.Getpid()))
+		if len(gr.g.Kinds) > 0 {
+			cmd.Env = append(cmd.Env, envKinds+"="+strings.Join(gr.g.Kinds, ","))
+		}
+		if len(gr.g.Steps) > 0 {
+			cmd.Env = append(cmd.Env, envSteps+"="+joinInts(gr.g.Steps))
+		}
+		if gr.g.Procs > 0 {
+			cmd.Env = append(cmd.Env, "GOMAXPROCS="+strconv.Itoa(gr.g.Procs))
+		}
 		if gr.g.LingerMs > 0 {
 			cmd.Env = append(cmd.Env, envLinger+"="+strconv.Itoa(gr.g.LingerMs))
 		}
@@ -340,6 +363,10 @@ func describe(cs Case, gr *groupRun, i int) string {
 	if gr.g.LingerMs > 0 {
 		linger = fmt.Sprintf("; launcher process lingers %d ms between daemon.Run() and os.Exit(0)", gr.g.LingerMs)
 	}
+	if len(gr.g.Steps) > 0 {
+		return fmt.Sprintf("Launch(%q) [call %d of a history of %d calls in one caller process: handler kinds %v (h healthy, x3/x0/p fail before Done()), issued in steps of %v concurrent calls, GOMAXPROCS=%d; schedule %s; this handler sleeps %d ms before Done()%s]",
+			handlerName(i), i+1, len(gr.g.Delays), gr.g.Kinds, gr.g.Steps, gr.g.Procs, schedOf(cs, gr), gr.g.Delays[i], linger)
+	}
 	return fmt.Sprintf("Launch(%q) [call %d of %d concurrent in this caller, %d caller(s); schedule %s; handler sleeps %d ms before Done()%s]",
 		handlerName(i), i+1, len(gr.g.Delays), len(cs.Groups), schedOf(cs, gr), gr.g.Delays[i], linger)
 }
@@ -457,7 +484,12 @@ func judgeExited(cs Case, gr *groupRun, c *drv.Ctx) verdict {
 	// this property: when every call of a scenario succeeded and the records still did not
 	// arrive, later scenarios of this process wait only briefly.
 	needDone := false
-	for _, r := range rep.Calls {
+	nHealthy := 0
+	for i, r := range rep.Calls {
+		if gr.g.kind(i) != kindHealthy {
+			continue
+		}
+		nHealthy++
 		if r.Failed || !r.MarkerPresent || !r.PreDonePresent {
 			needDone = true
 		}
@@ -466,7 +498,7 @@ func judgeExited(cs Case, gr *groupRun, c *drv.Ctx) verdict {
 	if !needDone && doneRecordsLate {
 		w = 300 * time.Millisecond
 	}
-	if !waitFor(w, func() bool { return len(listPrefixed(gr.dir, "done.")) >= n }) && !needDone {
+	if !waitFor(w, func() bool { return len(listPrefixed(gr.dir, "done.")) >= nHealthy }) && !needDone {
 		doneRecordsLate = true
 		c.Add("scenarios_without_all_done_records", 1)
 	}
@@ -474,6 +506,26 @@ func judgeExited(cs Case, gr *groupRun, c *drv.Ctx) verdict {
 
 	var incon []string
 	for i, r := range rep.Calls {
+		if k := gr.g.kind(i); k != kindHealthy {
+			// A handler that never reaches Done(): the statement says nothing about what Launch
+			// returns for it (on the unchanged code: an error for a non-zero exit, (pid, nil) for
+			// exit 0). It is history for the healthy calls around it; only counted.
+			c.Add("failing_handler_launches", 1)
+			c.Add("failing_handler_launches."+k, 1)
+			switch {
+			case r.Panic != "":
+				return verdict{key: "launch-panic@" + sched, expected: describe(cs, gr, i) + " does not panic", observed: "Launch panicked: " + r.Panic}
+			case r.Failed:
+				c.Add("failing_handler_launches_returned_error."+k, 1)
+			default:
+				c.Add("failing_handler_launches_returned_nil."+k, 1)
+				if m, ok := markers[r.Pid]; !ok || m.Idx != i {
+					c.Add("failing_handler_launches_returned_foreign_pid", 1)
+					c.Note(fmt.Sprintf("%s: %s returned (%d, nil), which is not the process that ran this handler", cs.Id, describe(cs, gr, i), r.Pid))
+				}
+			}
+			continue
+		}
 		what := describe(cs, gr, i)
 		mi, haveMi := markerOfIdx(markers, i)
 		di := dones[mi.Pid]
@@ -640,7 +692,7 @@ type mon struct{}
 func (mon) Name() string { return "daemonlaunch" }
 
 func (mon) Level(string) (string, string) {
-	return "exploration", "scenarios = caller processes calling daemon.Launch 1, 2 or 8 times concurrently; schedules: natural timing with the handler sleeping 0/5/200 ms before Done(); forced early Done() (launcher held by the verif pause hook right after cmd.Start() until every daemon of the caller returned from Done()); concurrent calls all natural, all forced, or one forced and one natural caller at the same time; all of these again with a launcher process that lingers 50/300 ms between daemon.Run() returning and os.Exit(0). Other timings of the three processes are sampled by repetition only. distinct_nontrivial = distinct (schedule class, forced flag and delay vector per caller) shapes"
+	return "exploration", "scenarios = caller processes calling daemon.Launch 1, 2 or 8 times concurrently; schedules: natural timing with the handler sleeping 0/5/200 ms before Done(); forced early Done() (launcher held by the verif pause hook right after cmd.Start() until every daemon of the caller returned from Done()); concurrent calls all natural, all forced, or one forced and one natural caller at the same time; all of these again with a launcher process that lingers 50/300 ms between daemon.Run() returning and os.Exit(0). histories of 6..12 calls in one caller process (sequential or in steps of 1-3 concurrent calls, GOMAXPROCS default or 1) in which handlers that fail before Done() (exit 3, exit 0, panic) are interleaved with healthy ones. Other timings of the three processes are sampled by repetition only. distinct_nontrivial = distinct (schedule class, forced flag and delay vector per caller) shapes"
 }
 
 func (mon) Assumptions(string) []string {
@@ -648,6 +700,8 @@ func (mon) Assumptions(string) []string {
 		"the handler of the harness writes marker.<pid> at start-up and predone.<pid> immediately before Done(); 'only after Done()' is judged by the existence of these files when Launch returns",
 		"a handler that finds its launcher gone before it could call Done() does not call it (the signal would hit the reaper); Launch has then returned before Done(), which the caller's observation shows",
 		"orphans are re-parented to pid 1 or a sub-reaper; the oracle only demands parent not in {caller, launcher}",
+		"Launch calls of handlers that never reach Done() are outside the statement: their results are counted (error / (pid, nil) / foreign pid), not judged",
+		"callers run with SIGINT at its default disposition (an inherited SIG_IGN is reset before the first Launch)",
 	}
 }
 
@@ -664,7 +718,12 @@ var classes = []string{
 	// the launcher process lingers after daemon.Run() returned true (slow clean-up before os.Exit)
 	"d-natural-l50", "d-natural-l300", "d-forced-l50", "d-forced-l300",
 	"e-natural-2", "e-natural-8", "e-forced-2", "e-forced-8", "e-mixed-2", "e-mixed-8",
+	// histories inside one caller process: handlers that fail before Done() interleaved with
+	// healthy ones, sequential (seq) or in steps of 1-3 concurrent calls (mix); p1 = GOMAXPROCS=1
+	"h-seq", "h-seq-p1", "h-mix", "h-mix-p1",
 }
+
+var failKinds = []string{kindExit3, kindExit0, kindPanic}
 
 var lingerChoices = []int{50, 300}
 
@@ -694,6 +753,37 @@ func genCase(class string, seed int64, part, run int) Case {
 	case "a", "b":
 		d, _ := strconv.Atoi(strings.TrimPrefix(f[1], "d"))
 		cs.Groups = []Group{{Forced: f[0] == "b", Delays: []int{d}}}
+	case "h":
+		n := 6 + r.Intn(maxN-5) // 6..12 calls
+		g := Group{Delays: make([]int, n), Kinds: make([]string, n)}
+		for i := 0; i < n; i++ {
+			g.Kinds[i] = kindHealthy
+			if r.Intn(100) < 45 {
+				g.Kinds[i] = failKinds[r.Intn(len(failKinds))]
+			}
+			if r.Intn(6) == 0 {
+				g.Delays[i] = 200
+			} else {
+				g.Delays[i] = delayChoices[r.Intn(2)]
+			}
+		}
+		// every history contains "a failing launch, then a healthy one"
+		g.Kinds[0], g.Kinds[1] = failKinds[r.Intn(len(failKinds))], kindHealthy
+		for left := n; left > 0; {
+			sz := 1
+			if f[1] == "mix" && r.Intn(3) == 0 {
+				sz = 2 + r.Intn(2)
+			}
+			if sz > left {
+				sz = left
+			}
+			g.Steps = append(g.Steps, sz)
+			left -= sz
+		}
+		if len(f) > 2 && f[2] == "p1" {
+			g.Procs = 1
+		}
+		cs.Groups = []Group{g}
 	case "d":
 		l, _ := strconv.Atoi(strings.TrimPrefix(f[2], "l"))
 		cs.Groups = []Group{{Forced: f[1] == "forced", Delays: []int{delayChoices[r.Intn(len(delayChoices))]}, LingerMs: l}}
